@@ -331,6 +331,31 @@ template <template <class...> class G, class L> void binLoadT(const json &c, boo
     if (r.value.at("g") != c.at("loaded"))
         throw Fail{"file of " + std::to_string(c.at("bytes").size()) + " bytes loaded to " + r.value.at("g").dump() +
                    ", expected " + c.at("loaded").dump()};
+    // the same file through a caller's reader (documented argument) that reports a short label the
+    // way a stream extraction does: failbit, without eofbit
+    if constexpr (!nolabel) {
+        ChildResult r2 = inChild([&]() -> json {
+            G<L> h = io::loadBinaryEdgeList<G, L>(path, [](std::ifstream &f, L &v) -> std::ifstream & {
+                char buf[sizeof(L)];
+                std::streamsize got = f.rdbuf()->sgetn(buf, sizeof(L));
+                if (got != (std::streamsize)sizeof(L)) {
+                    f.setstate(std::ios::failbit);
+                    return f;
+                }
+                std::memcpy(&v, buf, sizeof(L));
+                return f;
+            });
+            return {{"g", encGraph(h, directed, nolabel, dec)}};
+        });
+        if (!r2.finished)
+            throw Fail{describe(r2) + " (caller's reader)"};
+        if (r2.value.contains("threw")) {
+            if (r2.value.at("threw") != "std::exception" || !c.value("cut", false))
+                throw Fail{"loader with a caller's reader threw: " + r2.value.dump()};
+        } else if (r2.value.at("g") != c.at("loaded"))
+            throw Fail{"file of " + std::to_string(c.at("bytes").size()) + " bytes read through a caller's reader that fails with failbit "
+                       "loaded to " + r2.value.at("g").dump() + ", expected " + c.at("loaded").dump()};
+    }
 }
 template <template <class...> class G> void binLoad(const json &c, bool directed) {
     switch (c.at("w").get<int>()) {
@@ -474,6 +499,41 @@ template <template <class...> class G, class L> void textLoadT(const json &c, bo
             throw Fail{describe(r) + " on text " + json(t).dump()};
         compareLoaded(r.value, c.at("loaded"), strict, variant ? "without final newline" : "text");
     }
+}
+
+// one very long field (label text, vertex name, comment) in an otherwise tiny file: the cost and
+// the stack depth of reading a line may not grow with its length
+template <template <class...> class G> void textLongField(const json &c) {
+    const size_t len = c.at("len").get<size_t>();
+    const std::string big(len, 'x');
+    std::string path = tmpFile("long.txt");
+    {
+        std::ofstream f(path, std::ios::binary);
+        f << "# " << big << "\n0 1 " << big << "\n1 2 short\n";
+    }
+    ChildResult r = inChild([&]() -> json {
+        auto pr = io::loadTextEdgeList<G, std::string>(path, [](const std::string &s) { return s; });
+        return {{"n", pr.first.getSize()}, {"en", pr.first.getEdgeNumber()},
+                {"len", pr.first.getEdgeLabel(0, 1).size()}, {"short", pr.first.getEdgeLabel(1, 2)}};
+    });
+    if (!r.finished)
+        throw Fail{describe(r) + " on a file with a label of " + std::to_string(len) + " characters"};
+    if (r.value.contains("threw") || r.value.at("n") != 3 || r.value.at("en") != 2 || r.value.at("len") != len ||
+        r.value.at("short") != "short")
+        throw Fail{"file with a label of " + std::to_string(len) + " characters loaded to " + r.value.dump()};
+    {
+        std::ofstream f(path, std::ios::binary);
+        f << big << " b\nb " << big << "\nc b\n";
+    }
+    ChildResult r2 = inChild([&]() -> json {
+        auto pr = io::loadTextVertexLabeledEdgeList<G, NoLabel>(path, [](const std::string &) { return NoLabel(); });
+        return {{"n", pr.first.getSize()}, {"en", pr.first.getEdgeNumber()}, {"names", pr.second.size()},
+                {"len", pr.second.empty() ? 0 : pr.second[0].size()}};
+    });
+    if (!r2.finished)
+        throw Fail{describe(r2) + " on a file with a vertex name of " + std::to_string(len) + " characters"};
+    if (r2.value.contains("threw") || r2.value.at("n") != 3 || r2.value.at("names") != 3 || r2.value.at("len") != len)
+        throw Fail{"file with a vertex name of " + std::to_string(len) + " characters loaded to " + r2.value.dump()};
 }
 
 template <template <class...> class G> void textCase(const json &c, bool directed, bool roundtrip) {
@@ -731,6 +791,8 @@ int main(int argc, char **argv) {
                 dir ? textCase<LabeledDirectedGraph>(c, true, false) : textCase<LabeledUndirectedGraph>(c, false, false);
             else if (k == "unopenable")
                 unopenable();
+            else if (k == "text_longfield")
+                dir ? textLongField<LabeledDirectedGraph>(c) : textLongField<LabeledUndirectedGraph>(c);
             else if (k == "big_bin")
                 dir ? bigBin<LabeledDirectedGraph>(c, true) : bigBin<LabeledUndirectedGraph>(c, false);
             else if (k == "big_text")
